@@ -17,7 +17,7 @@ sec='''
 
 Each was written by a fresh sub-agent that saw only the text of one property and its own scratch worktree
 of `/repo` (nothing from `/verif`); second-round agents were additionally given the one-sentence summary of the
-first-round change for their property and asked for a change of a different kind. Each compiles, passes the
+first-round change for their property and asked for a change of a different kind; from round 12 on they got the short names of all earlier changes for their property. Each compiles, passes the
 repository's 237 tests, and comes with a demonstration that fails with the change and passes without it; all of
 that was re-confirmed by `./seedcheck.sh` in a fresh scratch worktree (removed afterwards) before the change was
 kept. The check was then run against the change through the build overlay (`./check mutant …`, equivalent to
@@ -110,6 +110,20 @@ for the slot helper, setter isolation for returned value objects, read-only meth
 race pass, `time.Time` inputs in named zones whose clock changes at local midnight, Julian Days in the last half
 second of every month and year — one undecidable (a new moon 81 s from local midnight) and one judged out of scope
 (needs a name table shorter than the built-in one, under which the unchanged library cannot name its own records).
+
+Rounds 12–15 (80 changes in four batches of twenty, written by fresh agents that were given only the property text,
+the short names of the changes already taken for it and a preferred flavour — two cooperating sites, a multi-step
+sequence on one object, an unusual input, package-level state, a less-travelled entry point, a data-table entry, a
+secondary object type, an edge of the range): 64 were caught by the quick check of their property as it stood, 4 by
+C09 (three of them concurrency-only changes labelled with another property), and 12 led to the additions listed in
+section 0.1 ("Rounds 12–15"). What the misses had in common this time was not a dimension of the *input* space but of
+the *object's past*: the check read its answer from an object nobody had asked anything before (term table rewritten by
+`GetShuJiu`/`GetFu`, lookup memo keyed too coarsely, back-pointer surviving `NextHour`), or through one of two entry
+points (`NewSolarFromDate`, month objects handed out by a neighbouring year's list, aliases under the non-default
+convention), or judged a rendering with a parser more forgiving than the text (empty year digits, hour 24). One
+comparison added for a seeded change (month objects by route) fired on the unchanged tree; it is a genuine
+inconsistency of the pinned library and is recorded as a known finding (section 6, row 23), with a class fingerprint
+narrow enough that the seeded change, which breaks the same accessor in every year, is still reported.
 
 ### 10.1b Behaviour-preserving changes (`/verif/benign/`, `benign_all.sh`)
 
